@@ -8,6 +8,11 @@ HOOK_COMMITS = subprocess.run(
 
 # id -> (built?, technique, level text, level note, design_ref)
 CHECKS = {
+ "C02": (True,
+   "history + executable reference model: PRINT <expr> on the real interpreter vs an independent AST fold, exhaustive over small trees in two parenthesisations",
+   "All trees with one binary operator over 68 decorated operands, all trees with two (quick) and three (thorough) binary operators over reduced operand sets, and random trees to depth 5 are printed with minimal and with redundant parentheses, evaluated by the real interpreter through PRINT and compared (text or error kind) with the reference fold. Held on every tree executed; exhaustive for the stated bounds.",
+   "Trusts f64 Display and libm powf shared by model and implementation; unary plus only over numeric operands.",
+   "DESIGN.md §5 C02"),
  "C12": (True,
    "metamorphic self-comparison on the real tokenizer: every single blank insertion/deletion and case flip outside literal text, exhaustive over short atom sequences",
    "For every concatenation of up to 3 (quick) / 4 (thorough) atoms of a 64-atom alphabet, and for random longer lines and DATA statements, ALL single-edit perturbations at unprotected positions plus the crunched and letter-spaced spellings are tokenized by the real tokenizer and must give the identical token sequence (or the identical failure); a sample is also entered into real interpreters and compared through LIST. Held on every line/perturbation executed; exhaustive for the stated atom bound.",
